@@ -33,3 +33,10 @@ bool drv_subscribe(SF *a, c17_counting_awaiter *awt) { return a->operator co_awa
 void drv_awaiter_init(c17_counting_awaiter *a) { new(a) c17_counting_awaiter(); }
 void drv_promise_move(promise<int> *dst, promise<int> *src) { new(dst) promise<int>(std::move(*src)); }
 }
+// ---- added after the audit (group E, D1/D2/W3): operator<< ("same as result_of") on a shared_future, resolution with an exception
+extern "C" {
+void drv_shift(SF *a, c17_future_fn *fn) { *a << *fn; }
+bool drv_resolve_exc(promise<int> *p, std::exception_ptr *e) { return (*p)(*e); }
+}
+// environment helper of the operator<< drive: "the user function starts an operation and keeps its promise" (real future<int>() + get_promise())
+extern "C" void drv_future_pending(future<int> *out, promise<int> *keep) { new(out) future<int>(); new(keep) promise<int>(out->get_promise()); }
